@@ -39,7 +39,7 @@ VIOL=$(grep -h "^VIOLATION property=" "$WORK"/log*.txt | head -1)
 DETAIL=$(grep -h "^violation detail" "$WORK"/log*.txt | head -1)
 BAD=$(grep -L "^exit=0" "$WORK"/log*.txt | wc -l)
 python3 - "$ID" "$WORK" "$RUNS" "$WORKERS" "$((END-START))" "$SEED" "$FT" <<'PY'
-import json, sys, glob, re
+import json, sys, glob, re, os
 pid, work, runs, workers, wall, seed, tgt = sys.argv[1:8]
 execs = cov = ft = 0
 for f in glob.glob(work + '/log*.txt'):
@@ -48,7 +48,7 @@ for f in glob.glob(work + '/log*.txt'):
     if m: execs += int(m.group(1))
     for m in re.finditer(r'cov: (\d+) ft: (\d+)', t):
         cov = max(cov, int(m.group(1))); ft = max(ft, int(m.group(2)))
-path = f'/verif/evidence/{pid}.json'
+path = (os.environ.get('NFV_OUT_DIR') or '/verif') + f'/evidence/{pid}.json'
 try:
     e = json.load(open(path))
 except Exception:
@@ -65,8 +65,8 @@ PY
 if [ -n "$VIOL" ]; then
   echo "$DETAIL"; echo "$VIOL"
   python3 - "$ID" <<'PY'
-import json, sys
-p = f'/verif/evidence/{sys.argv[1]}.json'
+import json, sys, os
+p = (os.environ.get('NFV_OUT_DIR') or '/verif') + f'/evidence/{sys.argv[1]}.json'
 try:
     e = json.load(open(p)); e['violations'] = 1; json.dump(e, open(p, 'w'), indent=1)
 except Exception: pass
